@@ -27,6 +27,7 @@ CONSTANTS
   RateOn = TRUE
   Atomic = TRUE
   CloseOnLimit = TRUE
+  Hows = {"served", "failed", "panicked"}
   WatchTime = 0
 INIT MCInit
 NEXT MCNextNoWatch
